@@ -14,7 +14,10 @@ Widened input classes (after adversarial seeds, see sensitivity/C14.md): varianc
 float32 arrays, the *same* array object passed for several variance arguments, a second protocol configured from the very same
 argument objects whose heritability is set (the first protocol's requested variances are unchanged), variances assigned through
 the public setters, a trial run before the heritability is set; phenotype-table label columns stored as object / str /
-"string" / categorical (sorted, ordered, with unused categories) and family columns as int8 / int32 / Int64 / categorical.
+"string" / categorical (sorted, ordered, with unused categories) and family columns as int8 / int32 / Int64 / categorical;
+the *row index* of the phenotype table (RangeIndex, shuffled integers, strings, repeated labels as left by pandas.concat of
+several tables, one label for all rows, MultiIndex, the taxon labels, floats with NaN, repeated dates, CategoricalIndex); the
+table of two stacked trials (whole population + a sub-list of it) and a genotype matrix listing a sub-list of the taxa.
 
 Oracle: genotypic values from the allele calls and model coefficients with math.fsum; variances with fractions.Fraction;
 means with math.fsum; everything joined by taxon label and (env, rep), never by row position (unless there are no labels).
@@ -245,6 +248,79 @@ def relabel(df, taxa_dtype, grp_dtype, taxa_universe, grp_universe):
     return out
 
 
+INDEX_KINDS = ["range", "range", "shuffled", "strings", "dup", "dup", "stacked", "stacked", "allsame", "multi", "multi_dup",
+               "taxa", "float_nan", "dates_dup", "categorical"]
+DUP_INDEX_KINDS = ("dup", "stacked", "allsame", "multi_dup", "taxa", "float_nan", "dates_dup", "categorical")
+
+
+@st.composite
+def index_spec(draw):
+    return {"kind": draw(st.sampled_from(INDEX_KINDS)), "raw": draw(st.lists(st.integers(0, 999), min_size=1, max_size=12)),
+            "mod": draw(st.integers(1, 5))}
+
+
+def row_labels(spec, n, taxa):
+    """None (leave the index alone) or a pandas index of n row labels.  The row labels of a phenotype table carry no meaning
+    for any of the protocols: the table is a bag of records identified by its taxa / env / rep columns."""
+    kind = (spec or {}).get("kind", "range")
+    if kind == "range" or n == 0:
+        return None
+    raw, mod = spec["raw"], spec["mod"]
+    L = len(raw)
+    cyc = [raw[r % L] for r in range(n)]
+    order = sorted(range(n), key=lambda r: (cyc[r], r))
+    perm = [0] * n
+    for j, r in enumerate(order):
+        perm[r] = j                                   # a permutation of 0..n-1
+    small = [c % mod for c in cyc]                    # few distinct labels, repeated
+    # tables of drawn lengths stacked on top of each other, each numbered from 0 (pandas.concat without ignore_index)
+    chunk, pos, c, k, left = [], [], 0, 0, 1 + raw[0] % max(1, (n + 1) // 2)
+    for r in range(n):
+        if left == 0:
+            c, k = c + 1, 0
+            left = 1 + raw[c % L] % max(1, (n + 1) // 2)
+        chunk.append(c)
+        pos.append(k)
+        k, left = k + 1, left - 1
+    if kind == "shuffled":
+        return pandas.Index([5 + 3 * x for x in perm])
+    if kind == "strings":
+        return pandas.Index(["r%03d" % x for x in perm], dtype=object)
+    if kind == "dup":
+        return pandas.Index(small)
+    if kind == "stacked":
+        return pandas.Index(pos)
+    if kind == "allsame":
+        return pandas.Index([0] * n)
+    if kind == "multi":
+        return pandas.MultiIndex.from_arrays([chunk, pos], names=["season", "plot"])
+    if kind == "multi_dup":
+        return pandas.MultiIndex.from_arrays([[x % 2 for x in cyc], small])
+    if kind == "taxa":
+        return pandas.Index([str(x) for x in taxa], dtype=object)
+    if kind == "float_nan":
+        return pandas.Index([float("nan") if x == 0 else 0.5 * x for x in small], dtype=float)
+    if kind == "dates_dup":
+        return pandas.DatetimeIndex(["2024-05-%02d" % (1 + x) for x in small])
+    if kind == "categorical":
+        return pandas.CategoricalIndex(["p%d" % x for x in small])
+    raise AssertionError(kind)
+
+
+def with_row_labels(df, spec):
+    """The same records in the same order, the rows labelled as the case says."""
+    idx = row_labels(spec, len(df), df["taxa"].tolist())
+    if idx is None:
+        return df
+    out = df.copy()
+    out.index = idx
+    return out
+
+
+def has_repeated_row_labels(df):
+    return not bool(df.index.is_unique)
+
+
 @st.composite
 def trial_case(draw):
     pop = draw(population())
@@ -280,6 +356,13 @@ def trial_case(draw):
     case["twin"] = twin
     case["taxa_dtype"] = draw(st.sampled_from(TAXA_DTYPES))
     case["grp_dtype"] = draw(st.sampled_from(GRP_DTYPES))
+    # ---- the table handed to the breeding-value protocol: row labels, a second trial of a sub-list of the population stacked
+    # underneath (with or without renumbering the rows), breeding values wanted for a sub-list of the taxa only
+    case["row_index"] = draw(index_spec())
+    case["season2"] = None
+    if draw(st.integers(0, 2)) == 0:
+        case["season2"] = {"taxa": draw(st.lists(st.integers(0, 7), min_size=1, max_size=8)), "ignore_index": draw(st.booleans())}
+    case["gt_keep"] = draw(st.one_of(st.none(), st.integers(1, 8)))
     return case
 
 
@@ -522,14 +605,43 @@ def check_trial(case, ctx):
     # ---- mean-phenotype breeding values on this table, aligned to a permuted genotype matrix ---------------------
     if names is not None:
         perm = [i % n for i in case["gt_perm"]][:n]
+        if case.get("gt_keep") is not None:                 # breeding values wanted for a sub-list of the taxa only
+            perm = perm[: 1 + (case["gt_keep"] - 1) % n]
         gt = pg.select_taxa(perm)
         bvp = MeanPhenotypicBreedingValue("taxa", "taxa_grp" if grp is not None else None, tcols)
-        # the same table with its label columns stored as the case says (object / string / categorical ...)
+        # the table of the programme so far: this trial, optionally with a second trial of a sub-list of the population
+        # stacked underneath (pandas.concat keeps each table's own row numbers unless told otherwise)
+        table = df
+        s2 = case.get("season2")
+        if s2 is not None:
+            sel2 = []
+            for x in s2["taxa"]:
+                if x % n not in sel2:
+                    sel2.append(x % n)
+            df2 = pt.phenotype(pg.select_taxa(sel2))
+            ctx.check(len(df2) == len(sel2) * sum(nrep), "record.count",
+                      lambda: "second trial: %d records, expected %d*%d" % (len(df2), len(sel2), sum(nrep)))
+            table = pandas.concat([df, df2], ignore_index=bool(s2["ignore_index"]))
+            ctx.label("two_trials_stacked")
+            ctx.label("two_trials_stacked_keeping_row_numbers", not s2["ignore_index"])
+        # the same table with its label columns stored as the case says (object / string / categorical ...) and its rows
+        # labelled as the case says
         tdt, gdt = case.get("taxa_dtype", "default"), case.get("grp_dtype", "default")
-        dfl = relabel(df, tdt, gdt, names, None if grp is None else [3, 0, 2, 1, 5])
+        dfl = relabel(table, tdt, gdt, names, None if grp is None else [3, 0, 2, 1, 5])
+        dfl = with_row_labels(dfl, case.get("row_index"))
         ctx.label("trial_table_categorical_labels", tdt.startswith("category") or gdt.startswith("category"))
         ctx.label("trial_table_categorical_labels_multi_family",
                   (tdt.startswith("category") or gdt.startswith("category")) and grp is not None and len(set(grp)) >= 2)
+        ctx.label("trial_table_row_index_" + (case.get("row_index") or {}).get("kind", "range"))
+        ctx.label("trial_table_repeated_row_labels", has_repeated_row_labels(dfl))
+        ctx.label("trial_table_repeated_row_labels_and_taxa_not_in_genotypes", has_repeated_row_labels(dfl) and len(set(perm)) < n)
+        ctx.label("breeding_values_for_sub_list_of_taxa", len(set(perm)) < n)
+        # the records of every taxon, read off the table by position (python lists), keyed by taxon label
+        byname = {}
+        tlabs = [str(x) for x in dfl["taxa"].tolist()]
+        tvals = [[float(x) for x in dfl[c].tolist()] for c in tcols]
+        for r, lb in enumerate(tlabs):
+            byname.setdefault(lb, []).append([tv[r] for tv in tvals])
         est = bvp.estimate(dfl, gt)
         u = est.unscale()
         ctx.check(type(est) is DenseEstimatedBreedingValueMatrix, "meanbv.type", str(type(est)))
@@ -541,13 +653,13 @@ def check_trial(case, ctx):
         nrec = sum(nrep)
         for row, i in enumerate(perm):
             for k in range(t):
-                vals = [blocks[key][[str(x[0]) for x in blocks[key]].index(names[i])][2][k] for key in sorted(blocks)]
+                vals = [v[k] for v in byname[names[i]]]
                 want = math.fsum(vals) / len(vals)
                 scale = max(abs(v) for v in vals) + max(abs(x) for x in numpy.nan_to_num(u[:, k]).tolist())
-                ctx.check(abs(float(u[row, k]) - want) <= 16.0 * (nrec + 8) * EPS * scale + 1e-300, "meanbv.mean_of_records",
+                ctx.check(abs(float(u[row, k]) - want) <= 16.0 * (len(vals) + 8) * EPS * scale + 1e-300, "meanbv.mean_of_records",
                           lambda: "taxon %r trait %d: breeding value %r, mean of its %d records %r" % (names[i], k, float(u[row, k]), len(vals), want))
                 if allzero[k]:
-                    ctx.check(abs(float(u[row, k]) - g[i][k]) <= 4.0 * gtol(S, i, k) + 16.0 * (nrec + 8) * EPS * scale,
+                    ctx.check(abs(float(u[row, k]) - g[i][k]) <= 4.0 * gtol(S, i, k) + 16.0 * (len(vals) + 8) * EPS * scale,
                               "meanbv.zero_noise_equals_truth",
                               lambda: "taxon %r trait %d: breeding value %r, true value %r" % (names[i], k, float(u[row, k]), g[i][k]))
 
@@ -560,7 +672,7 @@ def check_trial(case, ctx):
                 u2 = est2.unscale()
                 ctx.check(u2.shape == u.shape and not bool(numpy.isnan(u2).any()), "meanbv.ungrouped_table_with_group_column",
                           lambda: "population without groups, taxa_grp_col='taxa_grp': breeding values %s although every taxon "
-                          "has %d records" % (u2.tolist(), nrec))
+                          "has >= %d records" % (u2.tolist(), nrec))
                 if u2.shape == u.shape and not numpy.isnan(u2).any():
                     ctx.check(bool(numpy.allclose(u2, u, rtol=1e-12, atol=1e-12)), "meanbv.group_column_changes_values")
 
@@ -629,7 +741,9 @@ def meanbv_case(draw):
     taxa_dtype = draw(st.sampled_from(TAXA_DTYPES))
     grp_dtype = draw(st.sampled_from(GRP_DTYPES))
     grp_cats = list(draw(st.permutations([0, 1, 2, 3, 5])))
-    return {"names": names, "grp": grp, "use_grp": use_grp, "tcols": tcols, "rows": rows, "rowperm": rowperm,
+    # row labels of the two tables (same records): the labels are attached to the row *positions* after the rows were permuted
+    row_index, row_index2 = draw(index_spec()), draw(index_spec())
+    return {"row_index": row_index, "row_index2": row_index2, "names": names, "grp": grp, "use_grp": use_grp, "tcols": tcols, "rows": rows, "rowperm": rowperm,
             "rowperm2": rowperm2, "gt": gt, "mode": mode, "gtkind": gtkind, "taxa_dtype": taxa_dtype, "grp_dtype": grp_dtype,
             "grp_cats": grp_cats}
 
@@ -640,7 +754,7 @@ def check_meanbv(case, ctx):
     use_grp = case["use_grp"]
     tdt, gdt = case.get("taxa_dtype", "default"), case.get("grp_dtype", "default")
 
-    def frame(order):
+    def frame(order, rix):
         data = {"taxa": [names[rows[r][0]] for r in order]}
         if use_grp:
             data["taxa_grp"] = [grp[rows[r][0]] for r in order]
@@ -648,7 +762,7 @@ def check_meanbv(case, ctx):
         for k, c in enumerate(tcols):
             data[c] = [rows[r][1 + k] for r in order]
         # universe order of the taxa = `names` (includes taxa without any record: unused categories)
-        return relabel(pandas.DataFrame(data), tdt, gdt, names, case.get("grp_cats", [0, 1, 2, 3, 5]))
+        return with_row_labels(relabel(pandas.DataFrame(data), tdt, gdt, names, case.get("grp_cats", [0, 1, 2, 3, 5])), rix)
 
     def gtobj():
         sel = case["gt"]
@@ -667,7 +781,7 @@ def check_meanbv(case, ctx):
     tol = 16.0 * (maxrec + 8) * EPS * 2.0 * amax + 1e-300
 
     bvp = MeanPhenotypicBreedingValue("taxa", "taxa_grp" if use_grp else None, tcols if t > 1 else tcols[0])
-    df1, df2 = frame(case["rowperm"]), frame(case["rowperm2"])
+    df1, df2 = frame(case["rowperm"], case.get("row_index")), frame(case["rowperm2"], case.get("row_index2"))
     snap = df1.copy(deep=True)
     sel = case["gt"]
     missing = [i for i in sel if i not in recs]
@@ -687,6 +801,14 @@ def check_meanbv(case, ctx):
     ctx.label("categorical_labels_grouped_multi_family", cat and use_grp and nfam >= 2)
     ctx.label("categorical_with_unused_categories",
               (tdt in ("category_universe", "category_ordered") and len(recs) < len(names)) or (use_grp and gdt == "category_universe"))
+    rk = (case.get("row_index") or {}).get("kind", "range")
+    rep1, rep2 = has_repeated_row_labels(df1), has_repeated_row_labels(df2)
+    ctx.label("row_index_" + rk)
+    ctx.label("repeated_row_labels", rep1)
+    ctx.label("repeated_row_labels_and_table_has_taxa_not_in_genotypes", rep1 and bool(extra) and case["mode"] == "gt")
+    ctx.label("repeated_row_labels_no_genotype_matrix", rep1 and case["mode"] == "none")
+    ctx.label("two_tables_differ_in_row_index_kind", rk != (case.get("row_index2") or {}).get("kind", "range"))
+    ctx.label("row_labels_repeated_in_one_table_unique_in_the_other", rep1 != rep2)
     ctx.nontrivial(len(sel) >= 3 and gtnames != sorted(gtnames) and maxrec >= 2 and bool(missing) and case["mode"] == "gt")
 
     if case["mode"] == "gt":
@@ -892,22 +1014,28 @@ SUBCHECKS = [
     SubCheck("trial", check_trial, trial_case(), quick=800, thorough=3000, shards_quick=4,
              rule="generated population (1-8 taxa with permuted non-sorted labels or none, optional groups, 1-6 markers, additive or "
                   "additive+dominance model, 1-3 traits) x trial (nenv 1-6, nrep scalar/array 1-4, variances None/scalar/array "
-                  "from {0,.25,1,4}, optional set_h2/set_H2, Generator or RandomState); non-trivial = >= 3 taxa in "
+                  "from {0,.25,1,4}, optional set_h2/set_H2, Generator or RandomState); the table handed to MeanPhenotypicBreedingValue optionally has a second trial "
+                  "of a sub-list of the taxa stacked underneath, drawn row labels, and the genotype matrix lists a sub-list; non-trivial = >= 3 taxa in "
                   "non-lexicographic order and >= 2 records per taxon",
              required_labels=("all_noise_zero", "some_trait_noise_free_some_noisy", "herit_h2", "herit_H2", "unequal_nrep",
                               "taxa_non_lexicographic", "error_free_trait_with_block_effects", "rng_G", "rng_RS",
                               "same_array_for_error_and_other_variance_then_herit", "twin_protocol_shares_error_variance_array",
                               "variance_arrays_readonly", "variance_arrays_strided", "variances_via_setters",
-                              "trial_run_before_heritability_set", "trial_table_categorical_labels_multi_family")),
+                              "trial_run_before_heritability_set", "trial_table_categorical_labels_multi_family",
+                              "two_trials_stacked_keeping_row_numbers", "breeding_values_for_sub_list_of_taxa",
+                              "trial_table_repeated_row_labels_and_taxa_not_in_genotypes")),
     SubCheck("meanbv", check_meanbv, meanbv_case(), quick=700, thorough=3000, shards_quick=4,
-             rule="hand-built phenotype tables (1-9 taxa, 0-5 records each, rows permuted twice, optional groups, 1-3 traits) "
+             rule="hand-built phenotype tables (1-9 taxa, 0-5 records each, rows permuted twice, optional groups, 1-3 traits, "
+                  "label-column dtypes, row index of 13 kinds incl. repeated labels) "
                   "and a genotype matrix listing any non-empty sub-list of the taxa in arbitrary order (or no matrix); "
                   "non-trivial = >= 3 genotyped taxa in non-lexicographic order, some taxon with >= 2 records, >= 1 "
                   "genotyped taxon without records",
              required_labels=("unphenotyped_taxon_in_genotypes", "table_has_taxa_not_in_genotypes",
                               "genotype_order_non_lexicographic", "mode_none", "categorical_labels_grouped_multi_family",
                               "categorical_with_unused_categories", "taxa_column_string", "taxa_column_object",
-                              "family_column_Int64")),
+                              "family_column_Int64", "repeated_row_labels_and_table_has_taxa_not_in_genotypes",
+                              "repeated_row_labels_no_genotype_matrix", "row_labels_repeated_in_one_table_unique_in_the_other")
+                             + tuple("row_index_" + k for k in sorted(set(INDEX_KINDS)))),
     SubCheck("stats", check_stats, stats_case(), quick=24, thorough=60, shards_quick=4,
              rule="large trials (4000-6000 env x 2 taxa, 800-1600 env x 2-4 taxa, or 20-50 env x 60-110 taxa; nrep patterns incl. unequal); every case "
                   "is non-trivial; chi-square tests at two-sided level %g each" % ALPHA_TEST),
